@@ -319,6 +319,10 @@ def run(ctx):
     ctx.check(okgbe and pol_ == {True: False, False: True}, "C16.c", "HistogramND.get_bin_edges", "one axis: that axis' edges; no axis: the ij-mesh of all axes' edges",
               f"get_bin_edges wiring changed (mesh returned per `axis is not None` decision: {pol_})", gbe.where)
 
+    # merged bins are unions of adjacent bins only: additivity of the measures under merge_bins (shared with C10.c)
+    from rules import c10
+    c10.check_merged_edges(ctx, "C16.c", m)
+
     # ---- C16.e the binning objects the measures are read from belong to one histogram ------------------------------
     # edges, widths, bin_sizes and densities are recomputed from the binning objects on every access; a derived histogram
     # sharing such an object with its parent changes the parent's measures (while its contents stay) as soon as it grows
